@@ -56,6 +56,7 @@ var (
 	flagV       = flag.Bool("v", false, "verbose")
 	flagKeep    = flag.Bool("keep", false, "keep scratch directory")
 	flagNoRepl  = flag.Bool("noreplay", false, "do not replay counterexamples (debug only; exits 2 if any)")
+	flagNoGroup = flag.Bool("nogroup", false, "report every violating instance separately (debug)")
 	flagDump    = flag.String("dump", "", "write generated harness files to this directory and exit")
 )
 
